@@ -19,6 +19,8 @@ from vlib.props import C01
 
 ID = "C02"
 LEVEL = "exploration"
+EXHAUSTIVE = False
+EXHAUSTIVE_STREAMS = {'skeleton': 'thorough tier: the full product under ansi + 5 rotating dialects; quick tier: a seeded fifth', 'random': 'sampled'}
 RULE = ("case = (IR statement, dialect). skeleton: every combination of select-item kind {plain, aliased, qualified, function, nested function, arithmetic, "
         "CASE, CAST, ::cast, window with PARTITION/ORDER, parenthesised, star, qualified star} x scope {1 table, aliased, 2/3 tables comma, join, "
         "derived, CTE, derived joined with table, join mixed with comma} x nesting 0-2 x set-operation arity 1-3 x explicit column list {none, INSERT, "
